@@ -81,7 +81,7 @@ theorem measurement_substitution_counterexample :
 
 /-- **soundness of the algorithm, for any way `S` of instantiating a body**: a successful expansion is
 related to its input by the big-step semantics; "no expansion" means nothing matches. -/
-theorem expand_sound_with (S : Subst) (cals : Cals) (fuel : Nat) (prev : List Instruction) (i : Instruction) :
+theorem expand_sound_with (S : Subst) (cals : Cals) (fuel : Nat) (prev : List κ) (i : Instruction) :
     (∀ out, expandInnerWith E S cals fuel prev i = .ok (some out) → Expands E S cals [i] out) ∧
     (expandInnerWith E S cals fuel prev i = .ok none → NoMatch E cals i) :=
   ⟨fun _ h => expandInnerWith_sound E S cals fuel prev i _ h,
@@ -116,7 +116,7 @@ generic substitution, recursively; instructions without a match are kept. -/
 theorem expand_sound_partial (cals : Cals) (hcov : coveredB cals = true) (fuel : Nat)
     (prev : List Instruction) (i : Instruction) (out : List Instruction)
     (h : expandInner E cals fuel prev i = .ok (some out)) : Expands E specSubst cals [i] out := by
-  have hs := expandInnerWith_sound E codeSubst cals fuel prev i _ h
+  have hs := expandInnerWith_sound E codeSubst cals fuel _ i _ h
   obtain ⟨hg, hm⟩ := codeSubst_eq_specSubst E cals hcov
   exact Expands.congr E hg hm hs
 
@@ -124,12 +124,12 @@ theorem expand_sound_partial (cals : Cals) (hcov : coveredB cals = true) (fuel :
 a fixpoint — none of its instructions has a matching calibration.  (No hypothesis on the calibrations.) -/
 theorem expand_fixpoint (cals : Cals) (fuel : Nat) (prev : List Instruction) (i : Instruction)
     (out : List Instruction) (h : expandInner E cals fuel prev i = .ok (some out)) : Fixpoint E cals out :=
-  Expands.fixpoint E (expandInnerWith_sound E codeSubst cals fuel prev i _ h)
+  Expands.fixpoint E (expandInnerWith_sound E codeSubst cals fuel _ i _ h)
 
 /-- `expand` answers "no expansion" only for an instruction nothing matches -/
 theorem expand_none_noMatch (cals : Cals) (fuel : Nat) (prev : List Instruction) (i : Instruction)
     (h : expandInner E cals fuel prev i = .ok none) : NoMatch E cals i :=
-  expandInnerWith_sound E codeSubst cals fuel prev i _ h
+  expandInnerWith_sound E codeSubst cals fuel _ i _ h
 
 /-! ## The program level (`Program::expand_calibrations`) -/
 
@@ -270,12 +270,15 @@ example : gateSubstSpec
     (.reset { qubit := some (.variable "q") }) = .reset { qubit := some (.fixed 2) } := by
   simp [gateSubstSpec, mapQubits, mapExprs, substQ, bindQ]
 
+/-- `CAPTURE q "ro_rx" flat addr[0]` -/
+def exCapture : Instruction :=
+  let fr : FrameIdentifier := FrameIdentifier.mk "ro_rx" [Qubit.variable "q"]
+  let wf : WaveformInvocation := WaveformInvocation.mk "flat" []
+  .capture (Capture.mk true fr (MemRef.mk "addr" 0) wf)
+
 /-- the hypotheses of `measurement_substitution_faithful_partial` hold of a CAPTURE into the formal target -/
-example : plainB (.capture { blocking := true, frame := { name := "ro_rx", qubits := [Qubit.variable "q"] },
-      memoryReference := { name := "addr", index := 0 }, waveform := { name := "flat", parameters := [] } }) = true ∧
-    formalCoveredB (some "addr") (.capture { blocking := true, frame := { name := "ro_rx", qubits := [Qubit.variable "q"] },
-      memoryReference := { name := "addr", index := 0 }, waveform := { name := "flat", parameters := [] } }) = true := by
-  simp [plainB, formalCoveredB, otherRefs, invocationAddrs]
+example : plainB exCapture = true ∧ formalCoveredB (some "addr") exCapture = true := by
+  simp [exCapture, plainB, formalCoveredB, otherRefs, invocationAddrs]
 
 /-- … and fail of the known finding's witness -/
 example : formalCoveredB (some "addr")
